@@ -9,6 +9,7 @@ from ..specs.ops import comp, zero, at
 from ..store import compose
 from ..summaries import summarize
 from .common import find_entry, interiors, rename_fields, short
+from ..values import Unsupported
 
 CASE_SPLIT = True     # orderings between different grid sizes are analysed case by case (regions.run_under_size_cases)
 
@@ -122,6 +123,22 @@ def run(S, tier, rep):
                "equals I + A + A^2/2 + A^3/6 with A the Euler operator at the full step",
                key="C20.ssprk3|%s|%s" % (n, detail[:120]),
                sample={"kernel": "vorticity_stretching_timestep_ssprk3", "component": n, "terms_in_A3": len(as_poly(A3[n].leaf).t)})
+    # the step taken is the step given, in the kernel's own precision: a double-precision kernel must not route the step (or any
+    # other computed scalar) through single precision.  Traced (no symbolic execution) with a double-precision session.
+    from ..driver import Session
+    from .common import CATALOGUE, entry_trace
+    S64 = Session(S.repo, "float64")
+    n64 = 0
+    for e in CATALOGUE:
+        if "timestep" not in e.gen:
+            continue
+        tr, pr, raised = entry_trace(S64, e)
+        prec = [p for p in pr if getattr(p, "pkind", "") == "precision"]
+        n64 += 1
+        rep.ob("C20.euler", "%s in double precision: no scalar routed through single precision" % e.label(), not prec,
+               "%s at %s" % (prec[0].msg, prec[0].where) if prec else "no narrowing conversion", key="C20.euler|f64|%s|%s" % (e.label(), bool(prec)), nontrivial=False)
+    if n64 < 6:
+        raise Unsupported("expected the time-step kernels in the catalogue, found %d" % n64)
     rep.require_min("C20.euler", 26)
     rep.require_min("C20.ssprk3", 3)
 
